@@ -46,8 +46,8 @@ def main():
     p = os.path.join(ROOT, "DESIGN.md")
     s = open(p).read()
     for tag, fn in (("SEEDED", seeded_table), ("MUTANTS", mutant_table)):
-        s = re.sub(r"(<!-- BEGIN:%s -->\n).*?(\n<!-- END:%s -->)" % (tag, tag),
-                   lambda m: m.group(1) + fn() + m.group(2), s, flags=re.S)
+        s = re.sub(r"(<!-- BEGIN:%s -->\n).*?(<!-- END:%s -->)" % (tag, tag),
+                   lambda m: m.group(1) + fn() + "\n" + m.group(2), s, flags=re.S)
     open(p, "w").write(s)
 
 
